@@ -131,7 +131,8 @@ def streams(rng, tier):
         out.append(Case("partial-env", "k.eval", [s, "M"] + G.env_args(part, defaults)))
         if rng.random() < 0.1:
             out.append(Case("partial-env", "k.eval", [s, "N"] + G.env_args({}, defaults)))
-        out.append(Case("law-env", "law.k.env", [s, json.dumps(part)], kind="law"))
+        # a second environment for the SAME Marker object (purity: nothing learnt under the first may leak into the second)
+        out.append(Case("law-env", "law.k.env", [s, json.dumps(part), json.dumps(G.env_for(rng, f, total=False))], kind="law"))
     for k in G.VARS:      # every variable is defined by default; evaluating it never fails with a KeyError
         out.append(Case("partial-env", "k.eval", ['%s == "x" or "x" != %s' % (k, k), "N"] + G.env_args({}, defaults)))
         out.append(Case("partial-env", "k.eval", ['%s in %s' % (k, k), "M"] + G.env_args({}, defaults)))
